@@ -86,7 +86,16 @@ class C19(vlib.Check):
             table = {nm: rng.choice(["CCO", "c1ccccc1", "CC(=O)O", "C[C@H](N)C(=O)O", "[Na+].[Cl-]", "C/C=C/C", "F/C=C\\F", "C(/F)=C/F",
                                      "Cl\\C=C\\Cl", "C#N", "[13CH4]", "C%10CCCCC%10"]) for nm in names}
             self.count("smiles-table")
-            yield {"t": "smi", "table": table, "ext": rng.choice([".smi", ".smi.gz", ".smi.bz2"])}
+            case = {"t": "smi", "table": table, "ext": rng.choice([".smi", ".smi.gz", ".smi.bz2"])}
+            if rng.random() < 0.5:
+                # the same path written again afterwards: the empty table, a smaller table, a larger one - each read back
+                sub = dict(list(table.items())[:max(0, len(table) - 2)])
+                case["rewrites"] = rng.choice([[{}], [sub, {}], [{}, table], [sub]])
+                self.count("smiles-table:path-rewritten")
+            yield case
+        for ext in (".smi", ".smi.gz", ".smi.bz2"):
+            self.count("smiles-table:empty")
+            yield {"t": "smi", "table": {}, "ext": ext}
             # hand-written SMILES files as they occur: tabs and runs of blanks, extra columns, short and empty lines, repeated
             # names and repeated SMILES, a header line; read with every option of smiles_to_dict
             toks = ["CCO", "c1ccccc1", "CC(=O)O", "N", "C/C=C/C"]
@@ -220,6 +229,21 @@ class C19(vlib.Check):
                     os.remove(path)
             if back != case["table"]:
                 return {"key": "smiles-table-differs", "what": "SMILES table read back differs", "got": back}
+            if case.get("rewrites"):
+                path = os.path.join(self.tmp(), "tr%d%s" % (id(case) % 99999, case["ext"]))
+                try:
+                    hist = []
+                    for tb in [case["table"]] + case["rewrites"]:
+                        CU.dict_to_smiles(path, tb)
+                        back = CU.smiles_to_dict(path)
+                        hist.append(len(tb))
+                        if back != tb:
+                            return {"key": "smiles-table-differs:path-rewritten", "what": "a table of %d entries written to a path that held tables of %s entries before reads back as %d entries" % (len(tb), hist[:-1], len(back)), "got": back}
+                except Exception as e:  # noqa: BLE001
+                    return {"key": "smiles-table-raises:path-rewritten:" + type(e).__name__, "what": "rewriting a SMILES file raised %r" % e}
+                finally:
+                    if os.path.exists(path):
+                        os.remove(path)
             return None
         m = self._mol(case)
         before = mol_state(m)
